@@ -18,15 +18,21 @@ from .. import core, tlc, validate
 from ..tlaparse import to_json
 from ..world import canonical_dir_bytes
 
-FILES = {"foo": b"foo\n", "data/bar": b"bar\n", "data/sub/baz": b"baz baz\r\n", "data/sub/deep/qux": b"", "other/x": b"x\x00x"}
-DIRS = ["data", "data/sub", "data/sub/deep", "other", "void"]
-LAZY = {"data": ["data/bar", "data/sub/baz", "data/sub/deep/qux"], "other": ["other/x"], "void": []}   # void: the empty directory object
+FILES = {"foo": b"foo\n", "data/bar": b"bar\n", "data/sub/baz": b"baz baz\r\n", "data/sub/deep/qux": b"", "other/x": b"x\x00x",
+         "top/in/a": b"a below top\n", "top/in/s/b": b"b below top\n"}
+DIRS = ["data", "data/sub", "data/sub/deep", "other", "void", "top", "top/in", "top/in/s", "top/e"]
+# void, top/e: the empty directory object; top/in, top/e: lazy directories below the explicit directory `top`
+LAZY = {"data": ["data/bar", "data/sub/baz", "data/sub/deep/qux"], "other": ["other/x"], "void": [],
+        "top/in": ["top/in/a", "top/in/s/b"], "top/e": []}
+INNER = ["data/sub", "data/sub/deep", "top/in/s"]     # directories inside a directory object
+EXPLICIT = ["top"]                                      # directories both indexes list themselves
 FILTERS = {
     "all": lambda k: True,
     "foo": lambda k: k == ("foo",),
     "data": lambda k: k[:1] == ("data",),
     "sub": lambda k: k == ("data",) or k[:2] == ("data", "sub"),
     "other": lambda k: k[:1] == ("other",),
+    "top": lambda k: k[:1] == ("top",),
 }
 MD5 = {k: hashlib.md5(b).hexdigest() for k, b in FILES.items()}
 
@@ -83,8 +89,11 @@ class Pair:
         for k in FILES:
             if k != "foo":
                 self.explicit[T(k)] = DataIndexEntry(key=T(k), meta=Meta(md5=MD5[k]), hash_info=HashInfo("md5", MD5[k]))
-        for d in ("data/sub", "data/sub/deep"):
+        for d in INNER:
             self.explicit[T(d)] = DataIndexEntry(key=T(d), meta=Meta(isdir=True), loaded=True)
+        for d in EXPLICIT:
+            for idx in (self.lazy, self.explicit):
+                idx[T(d)] = DataIndexEntry(key=T(d), meta=Meta(isdir=True), loaded=True)
         if backend.startswith("sqlite"):
             self.lazy.commit()
             self.explicit.commit()
@@ -249,8 +258,8 @@ def directed_cases():
     """Every operation as the FIRST access to a fresh lazy index, for keys at every depth."""
     cases = []
     n = 500000
-    keys = ["foo", "data", "data/bar", "data/sub", "data/sub/baz", "data/sub/deep", "data/sub/deep/qux", "other", "other/x", "void"]
-    dirs = ["", "data", "data/sub", "data/sub/deep", "other", "void"]
+    keys = ["foo"] + DIRS + [k for k in FILES if k != "foo"]
+    dirs = [""] + DIRS
     singles = [("Get", [k]) for k in keys] + [("Info", [k]) for k in keys] + [("FsInfo", [k]) for k in keys]
     singles += [(op, [d]) for op in ("Ls", "FsLs", "FsFind") for d in dirs]
     singles += [("Iter", [d, sh]) for d in dirs for sh in (False, True)]
@@ -272,7 +281,7 @@ def check(run: core.Run, replay=None):
     core.assert_repo_tree()
     quick = run.tier == "quick"
     validate.run_design(run, "MC_LazyIndex", "LazyIndex_quick.cfg", workers=8,
-                        constants={"keys": 10, "lazy_dirs": ["data (nested 3 deep)", "other", "void (lists nothing)"], "filters": list(FILTERS), "MaxSteps": 4})
+                        constants={"keys": 16, "lazy_dirs": ["data (nested 3 deep)", "other", "void (lists nothing)", "top/in and top/e (below an explicit directory)"], "filters": list(FILTERS), "MaxSteps": 4})
     if replay:
         cases = [replay["witness"]["case"]]
     else:
@@ -301,7 +310,8 @@ def check(run: core.Run, replay=None):
                 run.divergence({"at": clause, **wit})
     run.extra.update({"rule": "every operation (lookup, info, iteration shallow/deep with every prefix, listing, 5 prefix-closed view "
                               "filters, adaptor ls/info/cat/find, hash-level diff) as the FIRST access to a fresh lazy index and inside "
-                              "random operation sequences; a directory object nested three levels deep and a second lazy directory; "
+                              "random operation sequences; a directory object nested three levels deep, a second lazy directory, an empty one, and two below an explicit "
+                              "directory; "
                               "in-memory and SQLite-backed; every call repeated", "validation": stats})
     run.assumptions += ["metadata is compared with the index (a directory object carries no sizes): type, hash and exec flag",
                         "the explicit index is built by the harness from the same objects, not by loading"]
